@@ -191,7 +191,8 @@ RETCODE adfMountHd ( struct AdfDevice * const dev )
         vol->rootBlock = (vol->lastBlock - vol->firstBlock+1)/2;
         vol->blockSize = part.blockSize*4;
 
-        len = (unsigned) min ( 31, part.nameLen );
+        /* nameLen is a (signed) char read from the disk */
+        len = (unsigned) min ( 31, (unsigned char) part.nameLen );
         vol->volName = (char*)malloc(len+1);
         if ( vol->volName == NULL ) { 
             adfFreeTmpVolList(listRoot);
